@@ -1,5 +1,6 @@
 import HcipyVerif.Lemmas.ApertureMain
 import HcipyVerif.Lemmas.AperturePolygon
+import HcipyVerif.Lemmas.ApertureKeck
 
 /-!
 # C12 — Apertures depend only on the physical points, not on the grid representation
@@ -273,6 +274,30 @@ theorem polar_shortcut_centred {ρ R x y : Rat} (hr : 0 ≤ ρ) (hR : 0 ≤ R) (
     (ρ ≤ R ↔ sq x + sq y ≤ sq R) :=
   polar_shortcut hr hR h
 
+/-! ## a telescope pupil inside the model: Keck -/
+
+/-- `make_hexagonal_grid(·, n)` produces `1 + 3n(n+1)` segment centres (37 for Keck's 3 rings) -/
+theorem hexagonal_grid_size (n : Nat) (cd ap : Rat) :
+    (hexPositions n cd ap).length = 1 + 3 * n * (n + 1) :=
+  hexPositions_length n cd ap
+
+/-- the Keck pupil (37 hexagonal segments with transmissions, central obscuration, six spiders)
+gets the same field on a separated grid and on the unstructured grid with the same points -/
+theorem keck_representation_independent {segR : Rat} (h : 0 ≤ segR) (rings : Nat)
+    (pitch ap segA : Rat) (dirs : List (Rat × Rat)) (trs : List Rat) (obsR : Rat)
+    (spiders : List (Rat × Rat)) (hw : Rat) (xs ys : List Rat) :
+    evalSep (keckShape rings pitch ap segR segA dirs trs obsR spiders hw) xs ys
+      = evalPts (keckShape rings pitch ap segR segA dirs trs obsR spiders hw) (sepPoints xs ys) :=
+  evalSep_eq_evalPts _ xs ys (keck_wf h rings pitch ap segA dirs trs obsR spiders hw)
+
+/-- … and takes values in [0,1] for transmissions in [0,1] -/
+theorem keck_in_unit_interval (rings : Nat) (pitch ap segR segA : Rat) (dirs : List (Rat × Rat))
+    {trs : List Rat} (htr : ∀ t ∈ trs, 0 ≤ t ∧ t ≤ 1) (obsR : Rat) (spiders : List (Rat × Rat))
+    (hw : Rat) (p : Pt) :
+    0 ≤ val (keckShape rings pitch ap segR segA dirs trs obsR spiders hw) p ∧
+      val (keckShape rings pitch ap segR segA dirs trs obsR spiders hw) p ≤ 1 :=
+  keck_mem_unit rings pitch ap segR segA dirs htr obsR spiders hw p
+
 /-! ## the shipped behaviour violates the property -/
 
 /-- D6: `r ≤ R` on polar grids ignores the centre -/
@@ -301,6 +326,11 @@ example : ∀ v ∈ [((0 : Rat), (0 : Rat)), (2, 0), (0, 2)], |v.1 - 1| ≤ (1 :
   intro v hv
   simp at hv
   rcases hv with rfl | rfl | rfl <;> norm_num [abs_le]
+
+example : ∀ t ∈ [(1 : Rat), 1/2, 0], 0 ≤ t ∧ t ≤ 1 := by
+  intro t ht
+  simp at ht
+  rcases ht with rfl | rfl | rfl <;> norm_num
 
 example : ∃ f, supersampled (.circle 1 0 0) 2 2 [0, 1] [0, 1, 2] = some f := ⟨_, rfl⟩
 
